@@ -102,6 +102,11 @@ def corpus():
         "sy|int:int:int:int,int:int:int:int,int:int:int:int,int:int:int:int|li 0 x 1 x 1;li 0 x 2 x 0;li 0 x 3 x 0;kd 1 x 3;"
         "as 0 x 2;as 1 x 5;as 0 x 7;as 1 x 8",
         "sy|int:int:int:int,int:int:int:int,int:int:int:int|li 0 l 1 l 1;li 0 l 2 l 1;kd 1 l 2;mu 0 l ap 3;mu 1 l ap 4;mu 0 l ap 5",
+        # a change travels THROUGH a partner that dies later in the same command (0 forwards to 1, then 2's handler
+        # drops 0): 1 was reached legitimately - reachability is judged on the links as the command found them
+        "sy|mod7:mod7:mod7:mod7,mod7:mod7:mod7:mod7,mod7:mod7:mod7:mod7,mod7:mod7:mod7:mod7|li 0 x 3 x 1;li 0 x 1 x 0;kd 2 x 0;"
+        "li 2 x 3 x 1;as 3 x -1",
+        "sy|int:int:int:int,int:int:int:int,int:int:int:int,int:int:int:int|li 0 l 2 l 1;li 0 l 1 l 0;kd 3 l 0;li 2 l 3 l 0;mu 2 l ap 5",
         # ... the victim is busy (the hub itself / the command's object) or no partner of the iterating table: nothing happens
         "sy|int:int:int:int,int:int:int:int,int:int:int:int,int:int:int:int|li 0 x 1 x 1;li 0 x 2 x 1;kd 1 x 0;kd 2 x 3;kd 2 x 2;as 0 x 2;as 3 x 1;as 2 x 4",
         # mixed partner kinds (implementation + oracle only): a List trait with a List partner and Any partners - one
@@ -621,10 +626,14 @@ def _run(specs, cmds, objs, recs, swallowed, guard, falsy=""):
         elif must_fail and not (k == "li" and U & {(p, (cmd[3], cmd[4])), ((cmd[3], cmd[4]), p)}):
             hits.append(_hit("missing-exception:" + opk, "operation succeeded where %s was expected" % sorted(acc)))
         E = D | U
+        # reachability is judged on the link graph as it was when the command started: a change that travelled
+        # through a partner before that partner died (trigger `kd`) is legitimate; the deaths only remove the
+        # obligations of the dead objects themselves
+        E_all = E if E_pre is None else (E | E_pre)
         # (2) nothing outside what the links reach from the changed trait changes or is notified
         allowed = set()
         for s in starts:
-            allowed |= _reach(E, s)
+            allowed |= _reach(E_all, s)
         # (a trait that is not a List trait, e.g. Any, may hold the very list object of another trait: its contents
         # then change with that list, link or no link - only a notification counts for it)
         leak = [r for r in (set(called) | {c for c in changed if not isany(c)}) if r not in allowed]
@@ -657,9 +666,9 @@ def _run(specs, cmds, objs, recs, swallowed, guard, falsy=""):
                 hits.append(_hit("sync-notify-untruthful:%s" % opk, "handler calls on %s do not add up to the change "
                                  "(doubled, missing or stale notification)" % (r,), calls=cs, before=val(before, r),
                                  after=val(after, r)))
-        comp = _component(E, p)
+        comp = _component(E_all, p)
         for s in starts:
-            comp |= _component(E, s)
+            comp |= _component(E_all, s)
         uniform = _uniform(specs, comp) and not any((a in comp) for (a, b) in U)
         tags.add("uniform" if uniform else "mixed")
         cyc = _has_cycle(E, comp)
